@@ -248,11 +248,12 @@ theorem seq_length_le {ds : Array Nat} {seq : List Nat} (htopo : Topo ds seq)
 
 /-! ### `fixed_length_slope` walks -/
 
-theorem flsDown_spec (ds : Array Nat) (distnc : Array Int) (x0 : Int) :
-    ∀ (fuel s d : Nat), flsDown ds distnc x0 fuel s = some d →
+theorem flsDown_spec (ds : Array Nat) (distnc : Array Int) (mask : Option (Array Bool)) (x0 : Int) :
+    ∀ (fuel s d : Nat), flsDown ds distnc mask x0 fuel s = some d →
       ∃ K, d = iterA ds K s ∧
-        (∀ j, j < K → distnc[iterA ds j s]! > x0 ∧ ds[iterA ds j s]! ≠ iterA ds j s) ∧
-        (distnc[d]! ≤ x0 ∨ ds[d]! = d) := by
+        (∀ j, j < K → distnc[iterA ds j s]! > x0 ∧ ds[iterA ds j s]! ≠ iterA ds j s ∧
+          maskAt mask (iterA ds j s) = true) ∧
+        (distnc[d]! ≤ x0 ∨ ds[d]! = d ∨ maskAt mask d = false) := by
   intro fuel
   induction fuel with
   | zero => intro s d h; simp [flsDown] at h
@@ -261,28 +262,35 @@ theorem flsDown_spec (ds : Array Nat) (distnc : Array Int) (x0 : Int) :
     simp only [flsDown] at h
     by_cases h1 : distnc[s]! > x0
     · rw [if_pos h1] at h
-      by_cases h2 : ds[s]! = s
+      by_cases h2 : ds[s]! = s ∨ maskAt mask s = false
       · rw [if_pos h2] at h
         have : s = d := Option.some.inj h
         subst this
         exact ⟨0, rfl, fun j hj => by omega, Or.inr h2⟩
       · rw [if_neg h2] at h
+        have h2a : ds[s]! ≠ s := fun hh => h2 (Or.inl hh)
+        have h2b : maskAt mask s = true := by
+          cases hm : maskAt mask s with
+          | true => rfl
+          | false => exact absurd (Or.inr hm) h2
         obtain ⟨K, hd, hpre, hend⟩ := ih _ _ h
         refine ⟨K + 1, by rw [hd]; rfl, ?_, hend⟩
         intro j hj
         cases j with
-        | zero => exact ⟨by simpa [iterA] using h1, by simpa [iterA] using h2⟩
+        | zero => exact ⟨by simpa [iterA] using h1, by simpa [iterA] using h2a, by simpa [iterA] using h2b⟩
         | succ j => exact hpre j (by omega)
     · rw [if_neg h1] at h
       have : s = d := Option.some.inj h
       subst this
       exact ⟨0, rfl, fun j hj => by omega, Or.inl (by omega)⟩
 
-theorem flsUp_spec (us : Array Nat) (distnc : Array Int) (x1 : Int) :
-    ∀ (fuel d : Nat) (cells : List Nat), flsUp us distnc x1 fuel d = some cells →
+theorem flsUp_spec (us : Array Nat) (distnc : Array Int) (mask : Option (Array Bool)) (x1 : Int) :
+    ∀ (fuel d : Nat) (cells : List Nat), flsUp us distnc mask x1 fuel d = some cells →
       ∃ K, cells = (List.range (K + 1)).map (fun j => iterA us j d) ∧
-        (∀ j, j < K → distnc[iterA us j d]! < x1 ∧ us[iterA us j d]! ≠ us.size) ∧
-        (x1 ≤ distnc[iterA us K d]! ∨ us[iterA us K d]! = us.size) := by
+        (∀ j, j < K → distnc[iterA us j d]! < x1 ∧ us[iterA us j d]! ≠ us.size ∧
+          maskAt mask us[iterA us j d]! = true) ∧
+        (x1 ≤ distnc[iterA us K d]! ∨ us[iterA us K d]! = us.size ∨
+          maskAt mask us[iterA us K d]! = false) := by
   intro fuel
   induction fuel with
   | zero => intro d cells h; simp [flsUp] at h
@@ -291,18 +299,23 @@ theorem flsUp_spec (us : Array Nat) (distnc : Array Int) (x1 : Int) :
     simp only [flsUp] at h
     by_cases h1 : distnc[d]! < x1
     · rw [if_pos h1] at h
-      by_cases h2 : us[d]! = us.size
+      by_cases h2 : us[d]! = us.size ∨ maskAt mask us[d]! = false
       · rw [if_pos h2] at h
         have : [d] = cells := Option.some.inj h
         subst this
         exact ⟨0, by simp [iterA], fun j hj => by omega, Or.inr (by simpa [iterA] using h2)⟩
       · rw [if_neg h2, Option.map_eq_some_iff] at h
+        have h2a : us[d]! ≠ us.size := fun hh => h2 (Or.inl hh)
+        have h2b : maskAt mask us[d]! = true := by
+          cases hm : maskAt mask us[d]! with
+          | true => rfl
+          | false => exact absurd (Or.inr hm) h2
         obtain ⟨cells', hw, hc⟩ := h
         obtain ⟨K, hcells, hpre, hend⟩ := ih _ _ hw
         refine ⟨K + 1, by rw [← hc, hcells, range_map_iter_succ], ?_, by rw [iterA_succ]; exact hend⟩
         intro j hj
         cases j with
-        | zero => exact ⟨by simpa [iterA] using h1, by simpa [iterA] using h2⟩
+        | zero => exact ⟨by simpa [iterA] using h1, by simpa [iterA] using h2a, by simpa [iterA] using h2b⟩
         | succ j => rw [iterA_succ]; exact hpre j (by omega)
     · rw [if_neg h1] at h
       have : [d] = cells := Option.some.inj h
